@@ -36,7 +36,8 @@
      C01_costs_literal  every literal of the reference's cost table = the constant re-read
                         from the Rust source by the translator;
      C01_refines_complete / C01_refines_sound   the two directions of C01_refines;
-     C01_dom_classic_sound   an executable sound domain (classic opcodes, atoms below 2^31);
+     C01_dom_classic_sound, C01_dom_const_sound   executable sound domains (classic opcodes;
+                        plus the constant-cost unknown operators; atoms below 2^31);
      C01_refuted_F6     with the FULL domain the statement is false: finding F6 (pre-hard-fork
                         wrapping_mul in op_unknown) reached through run_program.
 
@@ -111,6 +112,18 @@ Proof. exact f6_refutes_c01. Qed.
 Theorem C01_dom_classic_sound : dom_sound dom_classic.
 Proof. exact dom_classic_sound. Qed.
 
+(* a larger executable sound domain: also the constant-cost unknown operators (no-op opcodes) *)
+Theorem C01_dom_const_sound : dom_sound dom_const.
+Proof. exact dom_const_sound. Qed.
+
+(* non-vacuity with an unknown operator: (c (0x0523 (q . 1)) (+ (q . 2))) *)
+Example C01_unknown_witness : forall P : prims,
+  let prog := Cons (Atom [4]) (Cons (Cons (Atom [5; 35]) (Cons (Cons (Atom [1]) (Atom [1])) nil_s))
+                              (Cons (Cons (Atom [16]) (Cons (Cons (Atom [1]) (Atom [2])) nil_s)) nil_s)) in
+  ref_run (p_sha256 P) current_adapters dom_const 5 prog nil_s 0 = Ok (531, Cons nil_s (Atom [2])) /\
+  ref_run (p_sha256 P) current_adapters dom_classic 5 prog nil_s 0 = Err Unsupported.
+Proof. intros P. vm_compute. split; reflexivity. Qed.
+
 (* non-vacuity of C01_refines_complete: (a (q . (c (+ 2 3) (mul 2 3))) (c (q . 7) 1)) in the
    environment 6, inside the sound domain dom_classic, under the exact budget *)
 Example C01_refines_witness : forall P : prims,
@@ -143,4 +156,6 @@ Print Assumptions C01_refines_sound.
 Print Assumptions C01_refines.
 Print Assumptions C01_refuted_F6.
 Print Assumptions C01_dom_classic_sound.
+Print Assumptions C01_dom_const_sound.
+Print Assumptions C01_unknown_witness.
 Print Assumptions C01_refines_witness.
